@@ -35,6 +35,8 @@ pub struct FCfg {
     pub coster: u8,
     pub validator: u8,
     pub slow_us: u64,
+    /// cleanup interval in real milliseconds (0 = an hour: the ticker never fires)
+    pub tick_ms: u64,
 }
 
 pub fn gen_script(rng: &mut Rng, n: usize) -> (FCfg, Vec<Op>) {
@@ -48,6 +50,7 @@ pub fn gen_script(rng: &mut Rng, n: usize) -> (FCfg, Vec<Op>) {
         coster: rng.below(2) as u8,
         validator: *rng.pick(&[0u8, 0, 2, 3]),
         slow_us: *rng.pick(&[0u64, 200, 400]),
+        tick_ms: *rng.pick(&[0u64, 0, 15]),
     };
     let universe = rng.range(2, 9);
     let unit = (cfg.max_cost / 6).max(1);
@@ -100,7 +103,35 @@ fn dur(ns: u64) -> Duration {
 
 /// observable result of one step: the call's answer, the callbacks made, the quiescent snapshot
 fn obs(ans: String, cb: &RecCallback, snap: String) -> String {
-    format!("{} cbs={} {}", ans, cb.drain_str(), snap)
+    // the callbacks of one step are compared as a multiset: a sweep reports the keys of a bucket in
+    // hash-map order
+    let d = cb.drain_str();
+    let mut toks: Vec<&str> = d.split(',').collect();
+    toks.sort();
+    format!("{} cbs={} {}", ans, toks.join(","), snap)
+}
+
+fn cleanup_duration(cfg: &FCfg) -> Duration {
+    if cfg.tick_ms == 0 {
+        Duration::from_secs(3600)
+    } else {
+        Duration::from_millis(cfg.tick_ms)
+    }
+}
+
+/// every lookup that was kept for the policy has been applied to the estimator: the queue is empty and
+/// the access counter `w` (which restarts at every aging reset) agrees with the `gets_kept` counter.
+/// Admission decisions depend on the estimates, so both flavours are only compared once the policy
+/// worker has caught up.
+fn policy_caught_up(s: &verif::CacheSnap) -> bool {
+    let kept = s.metrics.map_or(0, |m| m[10]);
+    let samples = s.policy.tiny.samples.max(1) as u64;
+    s.policy_queue_len == 0 && s.policy.tiny.w as u64 == kept % samples
+}
+
+/// no expiry bucket that is due at virtual time `now` is left: the ticker has caught up
+fn swept(s: &verif::CacheSnap, now: u64) -> bool {
+    s.store.buckets.iter().all(|(b, _)| *b > (now / SEC) as i64)
 }
 
 fn strip_seeds(s: &str) -> String {
@@ -121,7 +152,7 @@ pub fn run_sync(cfg: &FCfg, ops: &[Op]) -> (Vec<String>, [u64; 4]) {
         .set_buffer_items(cfg.buf_items)
         .set_metrics(cfg.metrics)
         .set_ignore_internal_cost(cfg.ignore_internal)
-        .set_cleanup_duration(Duration::from_secs(3600))
+        .set_cleanup_duration(cleanup_duration(cfg))
         .finalize()
         .expect("sync cache");
     let seeds = verif::cache_snapshot(&c, |v| *v).policy.tiny.seeds;
@@ -162,6 +193,38 @@ pub fn run_sync(cfg: &FCfg, ops: &[Op]) -> (Vec<String>, [u64; 4]) {
             std::thread::sleep(Duration::from_micros(cfg.slow_us / 2 + (out.len() as u64 * 37) % cfg.slow_us));
         }
         let w = c.wait().is_ok();
+        {
+            let t0 = std::time::Instant::now();
+            let mut last = usize::MAX;
+            loop {
+                let sn = verif::cache_snapshot(&c, |v| *v);
+                if sn.closed || policy_caught_up(&sn) {
+                    break;
+                }
+                // (a clear() can separate the two counters for good: then settle for a quiet worker)
+                if t0.elapsed() > Duration::from_millis(30) && sn.policy_queue_len == 0 && sn.policy.tiny.w == last {
+                    break;
+                }
+                last = sn.policy.tiny.w;
+                std::thread::sleep(Duration::from_micros(300));
+                if t0.elapsed() > Duration::from_secs(2) {
+                    break;
+                }
+            }
+        }
+        if cfg.tick_ms > 0 && w {
+            // let the real-time ticker catch up with the virtual clock before looking
+            for _ in 0..200 {
+                if swept(&verif::cache_snapshot(&c, |v| *v), now) {
+                    break;
+                }
+                std::thread::sleep(Duration::from_millis(cfg.tick_ms));
+                let _ = c.wait();
+            }
+            // the buckets leave the index before their entries leave the store: a barrier after the
+            // tick makes sure the whole sweep (removals and callbacks) is behind us
+            let _ = c.wait();
+        }
         let snap = snap_str(&verif::cache_snapshot(&c, |v| *v));
         out.push(obs(format!("{} wait={}", ans, w), &cb, strip_seeds(&snap)));
     }
@@ -222,10 +285,10 @@ fn async_builder(cfg: &FCfg, cb: &RecCallback) -> AsyncCacheBuilder<u64, u64, Sp
         .set_buffer_items(cfg.buf_items)
         .set_metrics(cfg.metrics)
         .set_ignore_internal_cost(cfg.ignore_internal)
-        .set_cleanup_duration(Duration::from_secs(3600))
+        .set_cleanup_duration(cleanup_duration(cfg))
 }
 
-async fn drive(c: ACache, cb: RecCallback, ops: Vec<Op>, slow_us: u64) -> (Vec<String>, [u64; 4]) {
+async fn drive(c: ACache, cb: RecCallback, ops: Vec<Op>, slow_us: u64, tick_ms: u64) -> (Vec<String>, [u64; 4]) {
     let seeds = verif::async_cache_snapshot(&c, |v| *v).policy.tiny.seeds;
     let mut now = START;
     let mut out = Vec::new();
@@ -236,6 +299,36 @@ async fn drive(c: ACache, cb: RecCallback, ops: Vec<Op>, slow_us: u64) -> (Vec<S
             std::thread::sleep(Duration::from_micros(slow_us / 2 + (out.len() as u64 * 37) % slow_us));
         }
         let w = c.wait().await.is_ok();
+        {
+            let t0 = std::time::Instant::now();
+            let mut last = usize::MAX;
+            loop {
+                let sn = verif::async_cache_snapshot(&c, |v| *v);
+                if sn.closed || policy_caught_up(&sn) {
+                    break;
+                }
+                if t0.elapsed() > Duration::from_millis(30) && sn.policy_queue_len == 0 && sn.policy.tiny.w == last {
+                    break;
+                }
+                last = sn.policy.tiny.w;
+                // yield to the policy task (it may share this thread), then give it real time
+                let _ = c.wait().await;
+                std::thread::sleep(Duration::from_micros(300));
+                if t0.elapsed() > Duration::from_secs(2) {
+                    break;
+                }
+            }
+        }
+        if tick_ms > 0 && w {
+            for _ in 0..200 {
+                if swept(&verif::async_cache_snapshot(&c, |v| *v), now) {
+                    break;
+                }
+                std::thread::sleep(Duration::from_millis(tick_ms));
+                let _ = c.wait().await;
+            }
+            let _ = c.wait().await;
+        }
         let snap = snap_str(&verif::async_cache_snapshot(&c, |v| *v));
         out.push(obs(format!("{} wait={}", ans, w), &cb, strip_seeds(&snap)));
     }
@@ -254,14 +347,14 @@ pub fn run_async(cfg: &FCfg, ops: &[Op], exec: &Exec) -> (Vec<String>, [u64; 4])
                     std::thread::spawn(move || futures::executor::block_on(fut));
                 })
                 .expect("async cache");
-            futures::executor::block_on(drive(c, cb, ops, cfg.slow_us))
+            futures::executor::block_on(drive(c, cb, ops, cfg.slow_us, cfg.tick_ms))
         }
         Exec::TokioMulti => {
             let rt = tokio::runtime::Builder::new_multi_thread().worker_threads(4).build().expect("tokio");
             let cfg = cfg.clone();
             rt.block_on(async move {
                 let c: ACache = async_builder(&cfg, &cb).finalize(tokio::spawn).expect("async cache");
-                drive(c, cb, ops, cfg.slow_us).await
+                drive(c, cb, ops, cfg.slow_us, cfg.tick_ms).await
             })
         }
         Exec::TokioSingle => {
@@ -269,7 +362,7 @@ pub fn run_async(cfg: &FCfg, ops: &[Op], exec: &Exec) -> (Vec<String>, [u64; 4])
             let cfg = cfg.clone();
             rt.block_on(async move {
                 let c: ACache = async_builder(&cfg, &cb).finalize(tokio::spawn).expect("async cache");
-                drive(c, cb, ops, cfg.slow_us).await
+                drive(c, cb, ops, cfg.slow_us, cfg.tick_ms).await
             })
         }
     }
